@@ -48,6 +48,10 @@ def run_family2(R, tier, rng, counter):
         kdt = KEYDT[trial % len(KEYDT)]
         pool = keypool(kdt, rng)
         k = rng.randint(1, min(6, len(pool)))
+        if trial % 4 == 3:          # a larger key set (some code paths depend on the number of keys relative to a batch)
+            extra = [x for x in range(int(max(np.iinfo(kdt).min, -40)), int(min(np.iinfo(kdt).max, 90))) if x not in pool]
+            pool = sorted(set(pool) | set(rng.sample(extra, min(len(extra), 40))))
+            k = rng.randint(12, min(30, len(pool)))
         keys = rng.sample(pool, k)
         mod = rng.choice([None, 1, 2, 3, k, 2 * k - 1, 7])
         fl = (not counter) and rng.random() < .4
@@ -104,6 +108,7 @@ def run_family2(R, tier, rng, counter):
                 R.record(lab + f" {q}={v}", ok, 1, 1, nt, "assign", py=f"{desc}; {'; '.join(steps)}")
             elif kind == "sets":
                 q = rng.sample(keys, rng.randint(1, k)); v = mkv()
+                if rng.random() < .4: q = [rng.choice(keys[:max(1, k // 2)]) for _ in range(k)]        # repeats, len(q) == number of keys
                 ok = guarded(lambda: t.__setitem__(arrk(q), v) or 1)
                 if ok: model.update((x, v) for x in q)
                 steps.append(f"t[{q}]={v}")
@@ -124,6 +129,9 @@ def run_family2(R, tier, rng, counter):
                 hs = guarded(lambda: HashSet(arrk(keys), mod=mod))
                 if hs is not None:
                     R.record(lab + f" hashset {vn}{q}", guarded(lambda: [bool(b) for b in hs.contains(mkq())]), [x in model for x in q], [x in model for x in q], nt, "hashset/" + kdt, py=f"HashSet({kdt} {keys}, mod={mod}).contains({vn}:{q})")
+                    if kdt != "uint64" and absent_out:
+                        R.record(lab + f" hashset i64{qo}", guarded(lambda: [bool(b) for b in hs.contains(np.array(qo, dtype=np.int64))]), [x in model for x in qo], [x in model for x in qo], nt, "hashset-out-of-range/" + kdt,
+                                 py=f"HashSet({kdt} {keys}, mod={mod}).contains(np.array({qo}))")
                     x = rng.choice(q)
                     R.record(lab + f" hashset scalar {x}", guarded(lambda: bool(hs.contains(int(x)))), x in model, x in model, nt, "hashset-scalar/" + kdt, py=f"HashSet({kdt} {keys}, mod={mod}).contains({x})")
             elif kind == "like":
@@ -152,9 +160,13 @@ def run_family2(R, tier, rng, counter):
                     o = HashTable(arrk(keys), np.array(v2, dtype=vdt), mod=mod)
                     # addition requires the same bucket layout; build the other table the same way
                     s = t + o
-                    return kl(np.asarray(s[arrk(keys)]))
+                    r = kl(np.asarray(s[arrk(keys)]))
+                    z = t + np.zeros_like(t)
+                    z[arrk(keys[:1])] = 12345; z.fill(77)
+                    return [r, kl(np.asarray(t[arrk(keys)])), kl(np.asarray(o[arrk(keys)]))]
                 if isinstance(getattr(t, "_values", None), (int, float)): continue
-                R.record(lab + f" +{v2}", guarded(add), kl([model[x] + y for x, y in zip(keys, v2)]), kl([model[x] + y for x, y in zip(keys, v2)]), nt, "add", py=f"{desc}; {'; '.join(steps)}; (t + HashTable(keys, {v2}))[keys]")
+                exp_add = [kl([model[x] + y for x, y in zip(keys, v2)]), kl([model[x] for x in keys]), kl(v2)]
+                R.record(lab + f" +{v2}", guarded(add), exp_add, exp_add, nt, "add", py=f"{desc}; {'; '.join(steps)}; (t + HashTable(keys, {v2}))[keys]")
             elif kind == "iadd":
                 v = rng.randint(1, 5)
                 def iadd():
